@@ -11,7 +11,7 @@ Definition C14_LFUEL : nat := 400.      (* walks of the schema text *)
 Definition C14_FUEL : nat := 1500.      (* data operations on deeply nested inputs *)
 
 Definition s_loc (l : lloc) : sexp :=
-  match l with LScope p => Ls [At "scope"; St p] | LExt ns => Ls [At "ext"; St ns] end.
+  match l with LScope p => Ls [At "scope"; St (lpath_text p)] | LExt ns => Ls [At "ext"; St ns] end.
 
 Fixpoint ins_path (x : string * sexp) (l : list (string * sexp)) : list (string * sexp) :=
   match l with
@@ -20,11 +20,11 @@ Fixpoint ins_path (x : string * sexp) (l : list (string * sexp)) : list (string 
   end.
 
 Definition s_state (s : schema) (lt : ltab) : sexp :=
-  let rows := map (fun r => (fst r, Ls [St (fst r); St (fst (snd r)); St (snd (snd r));
+  let rows := map (fun r => (lpath_text (fst r), Ls [St (lpath_text (fst r)); St (fst (snd r)); St (snd (snd r));
                                        match lt_get (fst r) lt with Some x => s_loc (le_loc x) | None => At "nil" end]))
-                  (refs_of C14_LFUEL "" s) in
+                  (refs_of C14_LFUEL [] s) in
   Ls [At "st"; Ls (map snd (fold_right ins_path [] rows));
-      At (if validate_refs C14_LFUEL lt "" s then "ok" else "err")].
+      At (if validate_refs C14_LFUEL lt [] s then "ok" else "err")].
 
 (* the states after each application; None = an application panicked (the list ends with `panic`) *)
 Fixpoint run_order (e : env) (s : schema) (order : list string) (lt : ltab) : list sexp * option ltab :=
@@ -78,7 +78,10 @@ Definition run_c14_case (x : sexp) : sexp :=
   | Ls [At "c14"; ex; sx; ox; ix; Ls (At "ops" :: ops)] =>
       match env_of ex, schema_of DEPTH sx, strs_of_order ox, schema_of DEPTH ix with
       | Some e, Some s, Some order, Some si =>
-          match link_build C14_LFUEL "" s [] with
+          (* the boolean side conditions of the C14 theorems hold for every generated case *)
+          if negb (luniq s && luniq si && refs_to_objects e s && refs_to_objects e si && ns_names_ok (e_ext e))
+          then bad "c14 side condition" else
+          match link_build C14_LFUEL [] s [] with
           | Ok lt0 =>
               let '(states, fin) := run_order e s order lt0 in
               let '(rstates, rfin) := run_order e s (rev order) lt0 in
@@ -89,7 +92,7 @@ Definition run_c14_case (x : sexp) : sexp :=
               match fin with
               | Some _ =>
                   let inlr :=
-                    match link_build C14_LFUEL "" si [] with
+                    match link_build C14_LFUEL [] si [] with
                     | Ok li0 => match snd (run_order e si order li0) with
                                 | Some _ => Ls (At "inl" :: map (run_op14 e si) ops)
                                 | None => Ls [At "inl"; At "panic"]
